@@ -105,6 +105,7 @@ def enumerate_cases(tier):
         {"api": "map", "fn": "g2", "iterables": [[7, 6, 5, 0, 1], [1, 2, 3, 4, 5]], "kwargs": {}, "seq": "list"},
         {"api": "starmap", "fn": "g3", "tuples": [[7, 1, 1], [0, 2, 2], [6, 3, 3], [1, 4, 4]], "kwargs": {}, "seq": "list"},
         {"api": "map", "fn": "g2", "iterables": [[], []], "kwargs": {}, "seq": "list"},
+        {"api": "starmap", "fn": "g1", "tuples": [[3], [0], [1], [2]], "kwargs": {}, "seq": "tuple"},
     ]
     def slow(cs):
         import json
